@@ -171,6 +171,14 @@ func genHistory(rt *rapid.T) *History {
 				op, ok = Op{Op: "set", Dst: src, I: rx.Range(rt, "i", 0, s.n-1), Vals: vals(1), ViaVar: rapid.Bool().Draw(rt, "viaVar")}, true
 			case c < 800:
 				op = Op{Op: "append", Dst: dst, Src: src, Vals: vals(rx.Range(rt, "nappend", 1, 3)), ViaFunc: rx.Chance(rt, "viaFunc", 1, 4)}
+				if h.Elem == "byte" && rx.Chance(rt, "appendstring", 1, 3) {
+					// append(bytes, s...): the special form that appends the bytes of a string
+					op.Str = rapid.SampledFrom([]string{"a", "hey", "hé", "€uro"}).Draw(rt, "appstr")
+					op.Vals, op.ViaFunc = nil, false
+					for k := 0; k < len(op.Str); k++ {
+						op.Vals = append(op.Vals, int32(op.Str[k]))
+					}
+				}
 				if _, und := m.appendTo(s, op.Vals, dst == src); und {
 					op.Dst = src
 					if _, und2 := m.appendTo(s, op.Vals, true); und2 {
@@ -375,7 +383,9 @@ func (h *History) script() string {
 				fmt.Fprintf(&sb, "%ss%d[%d] = %s\n", ind, op.Dst, op.I, h.lit(op.Vals[0]))
 			}
 		case "append":
-			if op.ViaFunc {
+			if op.Str != "" {
+				fmt.Fprintf(&sb, "%ss%d = append(s%d, %q...)\n", ind, op.Dst, op.Src, op.Str)
+			} else if op.ViaFunc {
 				fmt.Fprintf(&sb, "%ss%d = app%d(s%d, %s)\n", ind, op.Dst, len(op.Vals), op.Src, h.litList(op.Vals))
 			} else {
 				fmt.Fprintf(&sb, "%ss%d = append(s%d, %s)\n", ind, op.Dst, op.Src, h.litList(op.Vals))
